@@ -440,7 +440,10 @@ class Process(metaclass=abc.ABCMeta):
         Args:
             override: The schema override to add.
         """
-        deep_merge(self._schema_override, override)
+        # merge a copy of the dictionary structure: the override may be
+        # shared (a composer hands the same one to every process it
+        # generates) and later overrides are merged into what is kept here
+        deep_merge(self._schema_override, deep_copy_internal(override))
 
     def ports(self) -> Dict[str, List[str]]:
         """Get ports and each port's variables.
